@@ -235,6 +235,13 @@ def walk_deltamax(prog):
                 e2["@self." + t.attr] = ("WRITE", unparse(s.value), s)
                 results.append((list(conds), "write:" + t.attr, (unparse(s.value), s, list(loopvars))))
                 return [(e2, conds)]
+            if isinstance(t, (ast.Tuple, ast.List)) and isinstance(s.value, (ast.Tuple, ast.List)) and len(t.elts) == len(s.value.elts) \
+                    and all(isinstance(x, ast.Name) for x in t.elts) and not any(prog.class_of_ctor(f.mod, v) == "Sequence" for v in s.value.elts if isinstance(v, ast.Call)):
+                # a, b, c = x, y, z : every right-hand side is evaluated in the old environment
+                vals = [ev.eval(v, env, fr) for v in s.value.elts]
+                for x, v in zip(t.elts, vals):
+                    e2[x.id] = v
+                return [(e2, conds)]
             raise Undecided("assignment target in deltaMax", f.loc(s))
         if isinstance(s, ast.AugAssign) and isinstance(s.target, ast.Name):
             e2 = dict(env)
